@@ -25,7 +25,7 @@ def run(rep):
         else:
             args = [str(rep.seed), "20000", "--exhaustive", "4", "--soup", "200000", "--run"]
         keep = os.path.join(verif.BUILD, "c08_keep")
-        rc, out, summ, blocks = verif.run_generator_compare(["python3", os.path.join(verif.ROOT, "checks", "gen_expr_cases.py")] + args + ["--keep", keep])
+        rc, out, summ, blocks = verif.run_generator_compare(["python3", os.path.join(verif.ROOT, "checks", "gen_expr_cases.py")] + args + ["--keep", keep, "--max-report", "100000"])
         samples = []
         try:
             with open(os.path.join(keep, "texts.hex")) as f:
@@ -37,7 +37,8 @@ def run(rep):
         spec_bad = [b for b in blocks if b.startswith("SPEC!=CODE")]
         model_bad = [b for b in blocks if b.startswith("MODEL!=CODE") or b.startswith("MODEL-OOF")]
         other_bad = [b for b in blocks if b.startswith("SPEC-")]
-        for b in spec_bad[:10]:
+        spec_bad.sort(key=len)
+        for b in spec_bad[:5]:
             found = True
             expr = b.splitlines()[0][len("SPEC!=CODE"):].strip()
             rep.violation("input", "EXPLAIN of SELECT <e> differs from the precedence-climb reference tree: " + expr[:120],
